@@ -1,6 +1,8 @@
 import Ladim.Driver.Util
 import Ladim.Model.Run
 import Ladim.Model.RunRoms
+import Ladim.Model.RunForcing
+import Ladim.Model.Simulation
 import Ladim.Model.RunOutput
 import Ladim.Model.Release
 import Ladim.Model.Forcing
@@ -18,40 +20,6 @@ namespace Drv
 
 def getF3' (j : Json) : R Field3 := getList (getList (getList getRat)) j
 def getF2' (j : Json) : R Field2 := getList (getList getRat) j
-
-/-- per-node time machine over a whole 3-D array: `arr file idx` is the raw array of a frame;
-    returns for steps `0 … n-1` the pair (u, dU) as arrays -/
-def fieldSeq (frames : List Frame) (arr : Nat → Nat → Field3) (n : Nat) : List (Field3 × Field3) :=
-  -- shape from the first frame
-  match frames with
-  | [] => []
-  | f0 :: _ =>
-    let shape := arr f0.file f0.idx
-    let node (k j i : Nat) : List (Rat × Rat) :=
-      let val := fun f ix => ((((arr f ix)[k]?).bind (·[j]?)).bind (·[i]?)).getD 0
-      match FM.init frames val val false with
-      | none => []
-      | some m0 =>
-        let rec go (m : FM) (s : Nat) (fuel : Nat) (acc : List (Rat × Rat)) : List (Rat × Rat) :=
-          match fuel with
-          | 0 => acc.reverse
-          | fuel + 1 =>
-            match m.update val val false (s : Int) with
-            | none => acc.reverse
-            | some m' => go m' (s + 1) fuel ((m'.u, m'.dU) :: acc)
-        go m0 0 n []
-    let perNode : List (List (List (List (Rat × Rat)))) :=
-      shape.zipIdx.map (fun (P, k) => P.zipIdx.map (fun (r, j) => r.zipIdx.map (fun (_, i) => node k j i)))
-    (List.range n).map (fun s =>
-      (perNode.map (fun P => P.map (fun r => r.map (fun l => (l[s]?.getD (0, 0)).1))),
-       perNode.map (fun P => P.map (fun r => r.map (fun l => (l[s]?.getD (0, 0)).2)))))
-
-/-- scalar fields: the latest frame at or before the step -/
-def scalarSeq (frames : List Frame) (arr : Nat → Nat → Field3) (n : Nat) : List Field3 :=
-  (List.range n).map (fun (s : Nat) =>
-    match (frames.filter (fun f => f.step ≤ (s : Int))).getLast? with
-    | some f => arr f.file f.idx
-    | none => [])
 
 def addF3 (A B : Field3) (c : Rat) : Field3 :=
   (A.zip B).map (fun (P, Q) => (P.zip Q).map (fun (r, s) => (r.zip s).map (fun (a, b) => a + c * b)))
@@ -92,10 +60,6 @@ def opRun (j : Json) : R Json := do
   let dt ← getInt (← fld tj "dt")
   let rev ← getBool (← fld tj "rev")
   let ref ← getOptInt tj "ref"
-  match TK.init (some start) (some stop) dt ref rev with
-  | .error e => pure (errJ e)
-  | .ok tk =>
-  let nsteps := tk.nsteps.toNat
   -- grid
   let f : RomsFile := { h := ← getF2' (← fld (← fld j "file") "h"), mask := ← getF2' (← fld (← fld j "file") "mask"),
                         dx := ← getF2' (← fld (← fld j "file") "dx"), hc := ← getRat (← fld (← fld j "file") "hc"),
@@ -108,9 +72,6 @@ def opRun (j : Json) : R Json := do
       | [a, b, c, d] => pure (some (a, b, c, d))
       | _ => throw "subgrid"
     | none => pure none
-  match mkGrid f sub with
-  | none => pure (errJ .exit1)
-  | some g =>
   -- forcing
   let frames ← getList (fun x => do
       let a ← getList getInt x
@@ -123,19 +84,6 @@ def opRun (j : Json) : R Json := do
   let scalTabs ← scalNames.mapM (fun nm => do
       let t ← getFramesTable (← fld (← fld j "scalars") nm)
       pure (nm, t))
-  let nrun := nsteps + 1
-  -- window every frame once
-  let nfiles := (frames.map (·.file)).foldl max 0 + 1
-  let nidx := (frames.map (·.idx)).foldl max 0 + 1
-  let pre (fn : Nat → Nat → Field3) : Nat → Nat → Field3 :=
-    let tab : Array (Array Field3) := ((List.range nfiles).map (fun fi => ((List.range nidx).map (fun ix => fn fi ix)).toArray)).toArray
-    fun fi ix => ((tab[fi]?).bind (·[ix]?)).getD []
-  let winU := pre (fun fi ix => windowU g (rawU fi ix) none)
-  let winV := pre (fun fi ix => windowV g (rawV fi ix) none)
-  let useq := fieldSeq frames winU nrun
-  let vseq := fieldSeq frames winV nrun
-  let sseq := scalTabs.map (fun (nm, t) => (nm, scalarSeq frames (pre (fun fi ix => windowRho g (t fi ix))) nrun))
-  let sign : Rat := if rev then -1 else 1
   -- release
   let rj ← fld j "release"
   let pvNames ← getList (fun x => x.getStr?) (← fld j "pvars")
@@ -144,80 +92,47 @@ def opRun (j : Json) : R Json := do
       match a.toList with
       | [n, v] => do pure (← n.getStr?, ← getVal v)
       | _ => throw "ivar") (← fld j "ivars")
-  let rc : RelCfg := { start := start, stop := stop, dt := dt, rev := rev,
-                       continuous := ← getBool (← fld rj "continuous"), freq := ← getInt (← fld rj "freq"),
-                       warm := ← getBool (← fld rj "warm"), releaseTimeCol := pvNames.contains "release_time" }
   let rows ← getList (fun x => do
       let cols ← getObjPairs (← fld x "cols")
       pure ({ time := ← getInt (← fld x "time"), mult := ← getNat (← fld x "mult"),
               cols := ← cols.mapM (fun (k, v) => do pure (k, ← getVal v)) } : RRow)) (← fld rj "rows")
-  match Rel.init rc rows with
-  | .error e => pure (errJ e)
-  | .ok rel =>
-  let relTable := rel.run 0 nrun
-  let rowToRP (r : RRow) : RP :=
-    let get (n : String) : Rat := valRat (lookupVal r.cols n)
-    { pid := 0, x := get "X", y := get "Y", z := get "Z", alive := true, active := true,
-      vars := ivDefaults.map (fun (n, d) => (n, (PState.lookup r.cols n).getD d)),
-      pvars := pvNames.map (fun n => (n, lookupVal r.cols n)) }
   -- tracker / ibm / output
   let trj ← fld j "tracker"
   let schemeStr ← (← fld trj "scheme").getStr?
   let scheme : Scheme := match schemeStr with
     | "EF" => Scheme.EF | "RK2" => Scheme.RK2 | "RK4" => Scheme.RK4 | _ => Scheme.none
-  let vertAdv ← getBool (← fld trj "vertadv")
-  let cfg : TrkCfg := { scheme := scheme, dt := dt, vertAdv := vertAdv, vertDiff := false }
   let ibj ← fld j "ibm"
-  let doAge ← getBool (← fld ibj "age")
   let killPairs ← getObjPairs (← fld ibj "kill")
   let killTab ← killPairs.mapM (fun (k, v) => do pure (k.toInt?.getD (-999), ← getList getNat v))
   let oj ← fld j "output"
-  let period ← getInt (← fld oj "period")
-  let sparse := (← (← fld oj "layout").getStr?) != "dense"
-  let setup : RomsSetup := {
-    g := g,
-    fieldU := fun k => useq[k]?.getD ([], []),
-    fieldV := fun k => vseq[k]?.getD ([], []),
-    scalars := sseq.map (fun (nm, seq) => (nm, fun k => seq[k]?.getD [])),
-    sign := sign, cfg := cfg,
-    releaseAt := fun n => ((relTable.lookup n).getD []).map rowToRP,
-    ageing := doAge, kills := fun n => (killTab.lookup n).getD [],
-    period := period, sparse := sparse, rnd := quantize }
-  let env : RunEnv := setup.env
-  let final ← match fldOpt j "warm" with
-    | none => pure (env.coldRun nsteps)
+  let warm ← match fldOpt j "warm" with
+    | none => pure none
     | some wj => do
-      let parts ← getList getRP (← fld wj "parts")
-      let npid ← getNat (← fld wj "npid")
-      pure (env.warmRun nsteps parts npid)
-  -- records through the output model
-  let outIv ← getList (fun x => x.getStr?) (← fld oj "ivars")
-  let outPv ← getList (fun x => x.getStr?) (← fld oj "pvars")
-  let numrec ← getInt (← fld oj "numrec")
-  let stem ← (← fld oj "stem").getStr?
-  let suffix ← (← fld oj "suffix").getStr?
-  let isWarm := (fldOpt j "warm").isSome
-  let refT := tk.ref
-  -- particle variables of every pid released so far, from the release table (and the warm file)
-  let allReleased : List RP := (relTable.flatMap (fun (_, rs) => rs.map rowToRP))
-  let warmPv : List (List (String × Val)) ← match fldOpt j "warm" with
-    | some wj => (do
-        match fldOpt wj "pvtable" with
+      let pvt ← match fldOpt wj "pvtable" with
         | some t => getList (fun x => do
               let ps ← getObjPairs x
               ps.mapM (fun (k, v) => do pure (k, ← getVal v))) t
-        | none => pure [])
-    | none => pure []
-  let pvTable : List (List (String × Val)) := warmPv ++ allReleased.map (·.pvars)
-  -- npid at the time of each record: pids handed out up to and including that step
-  let npidAt (st : Int) : Nat :=
-    (match fldOpt j "warm" with | some _ => warmPv.length | none => 0) +
-      ((relTable.filter (fun (s, _) => s ≤ st)).map (fun (_, rs) => rs.length)).foldl (· + ·) 0
-  let onames : List String := outIv.filter (fun n => n != "pid")
-  let otime : Int → Rat := fun st => ((tk.step2time st - refT : Int) : Rat)
-  let ospec : OutSpec := { names := onames, pnames := outPv, time := otime, refT := (refT : Rat),
-                           pvTable := pvTable, npidAt := npidAt }
-  let filesJ := match ospec.runFiles (if sparse then .sparse else .dense) nsteps period numrec stem suffix final.records isWarm with
+        | none => pure []
+      pure (some ({ parts := ← getList getRP (← fld wj "parts"), npid := ← getNat (← fld wj "npid"),
+                    pvtable := pvt } : WarmState))
+  let sim : Sim := {
+    start := start, stop := stop, dt := dt, rev := rev, ref := ref,
+    file := f, sub := sub, frames := frames, rawU := rawU, rawV := rawV, rawS := scalTabs,
+    continuous := ← getBool (← fld rj "continuous"), freq := ← getInt (← fld rj "freq"), rows := rows,
+    pvNames := pvNames, ivDefaults := ivDefaults,
+    scheme := scheme, vertAdv := ← getBool (← fld trj "vertadv"),
+    ageing := ← getBool (← fld ibj "age"), kills := fun n => (killTab.lookup n).getD [],
+    period := ← getInt (← fld oj "period"), sparse := (← (← fld oj "layout").getStr?) != "dense",
+    numrec := ← getInt (← fld oj "numrec"), stem := ← (← fld oj "stem").getStr?,
+    suffix := ← (← fld oj "suffix").getStr?,
+    outIv := ← getList (fun x => x.getStr?) (← fld oj "ivars"),
+    outPv := ← getList (fun x => x.getStr?) (← fld oj "pvars"),
+    warm := warm }
+  match sim.run quantize with
+  | .error e => pure (errJ e)
+  | .ok res =>
+  let final := res.final
+  let filesJ := match res.files with
     | .error (st, e) => Json.mkObj [("error", .str e.toString), ("at_step", intJ st)]
     | .ok fs => Json.arr (fs.map (fun (vf : VFile) =>
         Json.mkObj [("name", .str vf.name), ("time", listJ ratJ vf.time), ("count", listJ natJ vf.count),
@@ -227,7 +142,7 @@ def opRun (j : Json) : R Json := do
           ("pvarN", optJ natJ vf.pvarN), ("pvars", Json.mkObj (vf.pvars.map (fun (n, c) => (n, listJ valJ c)))),
           ("closed", .bool vf.closed)])).toArray
   pure (Json.mkObj [
-    ("nsteps", natJ nsteps),
+    ("nsteps", natJ res.nsteps),
     ("records", listJ (fun (r : Int × List RP) => Json.mkObj [("step", intJ r.1), ("parts", listJ rpJ r.2)]) final.records),
     ("final", listJ rpJ final.parts), ("npid", natJ final.npid),
     ("log", listJ (fun (c : Int × Call) => Json.arr #[intJ c.1, .str (callName c.2)]) final.log),
